@@ -472,6 +472,12 @@ func (c *Ctx) skolemize(o *Obl, pc, cond string) {
 		}
 		if ok {
 			extra = append(extra, fmt.Sprintf("(assert (=> %s %s))", name, inst(qi)))
+		} else if len(qi.src) == 1 && len(q.src) <= 3 {
+			// a one-variable hypothesis whose binder has another name: try it at each skolem of the goal
+			for _, gs := range q.src {
+				b := strings.ReplaceAll(qi.body, qi.smt[0], sk[gs])
+				extra = append(extra, fmt.Sprintf("(assert (=> %s %s))", name, b))
+			}
 		}
 	}
 	body := inst(q)
